@@ -34,7 +34,10 @@ Hill(ty, k, KK, nn, s, dd) == [type |-> ty, re |-> << >>, k |-> k, K |-> KK, n |
                                rate |-> NoRate, gkeys |-> << >>]
 Nxt(a) == (a % NS) + 1
 \* general rates: a numeric argument is a literal of the rate string, a named one an identifier
-Tpls == {"lin", "mm", "sq"}
+\* "negsq": a unary minus written directly in front of a power, K*sb + k*(-sa^2) - the minus applies to the POWER;
+\* "ppow": a chained power sa^2^2 = sa^(2^2) (powers associate to the right).  The harness writes them without the redundant
+\* parentheses, so that the precedence rules of the formula language are exercised.
+Tpls == {"lin", "mm", "sq", "negsq", "ppow"}
 GenOf(tpl, a, k, KK, named, r) ==
     LET ke == IF named THEN V(PName("k", r)) ELSE N(k)
         Ke == IF named THEN V(PName("K", r)) ELSE N(KK)
@@ -42,6 +45,8 @@ GenOf(tpl, a, k, KK, named, r) ==
         sb == V(SpName(Nxt(a))) IN
     IF tpl = "lin" THEN GenLaw(EMul(ke, sa), <<"k">>, k, KK)
     ELSE IF tpl = "mm" THEN GenLaw(EDiv(EMul(ke, sa), EAdd(Ke, sa)), <<"k", "K">>, k, KK)
+    ELSE IF tpl = "negsq" THEN GenLaw(EAdd(EMul(Ke, sb), EMul(ke, ESub(N(Zero), EPow(sa, N(I(2)))))), <<"k", "K">>, k, KK)
+    ELSE IF tpl = "ppow" THEN GenLaw(EMul(ke, EPow(sa, EPow(N(I(2)), N(I(2))))), <<"k">>, k, KK)
     ELSE GenLaw(EAdd(EMul(ke, EPow(sa, N(I(2)))), EMul(Ke, sb)), <<"k", "K">>, k, KK)
 
 HillExh == {Hill(ty, I(3), I(2), nn, s, 1) : ty \in {"hillpositive", "hillnegative"}, nn \in {I(1), I(2)}, s \in Sp}
